@@ -180,8 +180,9 @@ fn gen_tree(rng: &mut Rng) -> TNode {
     let mut all: Vec<Slot> = Slot::all().collect();
     rng.shuffle(&mut all);
     let ro = all.split_off(26);
-    let depth = rng.range(1, 5);
-    let fan = rng.range(2, 6);
+    let tiny = crate::props::sched::tiny();
+    let depth = if tiny { rng.range(1, 2) } else { rng.range(1, 5) };
+    let fan = if tiny { 2 } else { rng.range(2, 6) };
     let mut g = TG { rng, uid: 1, ro };
     // the root is an inner node
     loop {
@@ -306,7 +307,7 @@ fn case(rng: &mut Rng, pools: &mut std::collections::HashMap<usize, Pool>, rep: 
         return;
     }
     // ---- setup reaches every leaf; dispatch from outside and from inside the pool ----
-    let pool_size = *rng.pick(&[1usize, 2, 3, 4, 8, 16]);
+    let pool_size = if crate::props::sched::tiny() { rng.range(1, 3) } else { *rng.pick(&[1usize, 2, 3, 4, 8, 16]) };
     let pool = pools.entry(pool_size).or_insert_with(|| make_pool(pool_size)).clone();
     let mut world = World::empty();
     let mut ps = ParSeq::new(root, pool.clone());
@@ -461,6 +462,9 @@ fn overlap_case(rng: &mut Rng, rep: &mut Report, case_no: u64) {
 pub fn run(args: &Args) -> i32 {
     let mut rep = Report::new(args);
     let mut pools = std::collections::HashMap::new();
+    if args.has("--tiny") {
+        crate::props::sched::TINY.store(true, SeqCst);
+    }
     let n = args.count(3200, 80_000);
     let range: Vec<u64> = match args.case {
         Some(c) => vec![c],
@@ -471,7 +475,7 @@ pub fn run(args: &Args) -> i32 {
             break;
         }
         let mut rng = Rng::new(args.case_seed(c));
-        if c % 100 == 99 {
+        if c % 100 == 99 && !crate::props::sched::tiny() {
             overlap_case(&mut rng, &mut rep, c);
         } else {
             case(&mut rng, &mut pools, &mut rep, c);
